@@ -502,8 +502,11 @@ func (s *seqSource) ReadByte() (byte, error) {
 func c12Helpers(r *eng.Run) {
 	r.SetEntry("wsflate.Helper")
 	msg := drawFlateMsg(r)
-	if len(msg) > 5000 {
+	if len(msg) > 5000 && !r.T.Chance(sim.LLen, 1, 3) {
 		msg = msg[:5000]
+	}
+	if len(msg) > 65536 {
+		r.Probe("helper_payload_above_64k")
 	}
 	keep := append([]byte(nil), msg...)
 	f := ws.Frame{Header: ws.Header{Fin: true, OpCode: ws.OpText, Length: int64(len(msg))}, Payload: msg}
@@ -639,6 +642,21 @@ func c12Helpers(r *eng.Run) {
 				r.Failf("corrupt_message_reported_as_success", "a Helper whose compressor never ends a flush with the tail returned %d bytes and no error after the default Helper had been used; they do not inflate to the message (%v)", len(p), ierr)
 			}
 		}
+		// ... and one whose Flush is right but whose Close appends a trailer
+		// (a checksum, zlib style) or fails.
+		closeFails := r.T.Bool(sim.LFault)
+		trailer := wsflate.Helper{
+			Compressor: func(d io.Writer) wsflate.Compressor {
+				f, _ := flate.NewWriter(d, 5)
+				return trailerCompressor{f, d, closeFails}
+			},
+			Decompressor: func(src io.Reader) wsflate.Decompressor { return flate.NewReader(src) },
+		}
+		if p, err := trailer.Compress(keep); err == nil {
+			if got, ierr := inflateIndependent(p); ierr != nil || !bytes.Equal(got, keep) || closeFails {
+				r.Failf("corrupt_message_reported_as_success", "a Helper whose compressor's Close %s returned %d bytes and no error (inflate: %v)", map[bool]string{true: "fails", false: "appends a trailer"}[closeFails], len(p), ierr)
+			}
+		}
 		lvl := []int{0, 1, 9}[r.T.Int(sim.LCfg, 3)]
 		own := wsflate.Helper{
 			Compressor:   func(d io.Writer) wsflate.Compressor { f, _ := flate.NewWriter(d, lvl); return f },
@@ -674,6 +692,27 @@ func c12Helpers(r *eng.Run) {
 			r.Failf("helper_header", "DecompressFrame changed a frame without the compression bit (err=%v)", err)
 		}
 	}
+}
+
+// trailerCompressor compresses correctly; its Close ends the stream and then
+// appends four more bytes (a checksum), or fails.
+type trailerCompressor struct {
+	fw    *flate.Writer
+	dst   io.Writer
+	fails bool
+}
+
+func (c trailerCompressor) Write(p []byte) (int, error) { return c.fw.Write(p) }
+func (c trailerCompressor) Flush() error                { return c.fw.Flush() }
+func (c trailerCompressor) Close() error {
+	if c.fails {
+		return ErrInjected
+	}
+	if err := c.fw.Close(); err != nil {
+		return err
+	}
+	_, err := c.dst.Write([]byte{0xde, 0xad, 0xbe, 0xef})
+	return err
 }
 
 // faultyCompressor wraps flate and misbehaves at Flush. It deliberately has
